@@ -501,7 +501,9 @@ ANCHORS = [("typhon/files/fileset.py", "FileSet.__setitem__"), ("typhon/files/fi
            ("typhon/files/fileset.py", "FileSet.read"), ("typhon/files/fileset.py", "FileSet.write"),
            ("typhon/files/fileset.py", "FileSet.move"), ("typhon/files/fileset.py", "FileSet._move_single_file"),
            ("typhon/files/fileset.py", "FileSet.delete"), ("typhon/files/fileset.py", "FileSet._delete_single_file"),
-           ("typhon/files/fileset.py", "FileSet._dry_delete"), ("typhon/files/fileset.py", "FileSet.make_dirs")]
+           ("typhon/files/fileset.py", "FileSet._dry_delete"), ("typhon/files/fileset.py", "FileSet.make_dirs"),
+           ("typhon/files/handlers/common.py", "NetCDF4.read"), ("typhon/files/handlers/common.py", "NetCDF4.write"),
+           ("typhon/files/handlers/common.py", "CSV.read"), ("typhon/files/handlers/common.py", "CSV.write")]
 
 
 def make_check():
